@@ -152,6 +152,7 @@ class TConst(T):
 LOWER = z3.Function("LOWER", z3.StringSort(), z3.StringSort())
 STRIP = z3.Function("STRIP", z3.StringSort(), z3.StringSort())
 RSTRIP = z3.Function("RSTRIP", z3.StringSort(), z3.StringSort())
+LSTRIP = z3.Function("LSTRIP", z3.StringSort(), z3.StringSort())
 REPLACE_ALL = z3.Function("REPLACE_ALL", z3.StringSort(), z3.StringSort(), z3.StringSort(), z3.StringSort())
 ISSPACE_HI = z3.Function("ISSPACE_HI", z3.IntSort(), z3.BoolSort())
 ISALPHA_HI = z3.Function("ISALPHA_HI", z3.IntSort(), z3.BoolSort())
@@ -263,6 +264,9 @@ class Contract:
 
     def rstrip(self, t):
         return RSTRIP(t)
+
+    def lstrip(self, t):
+        return LSTRIP(t)
 
     def isspace_char(self, c):
         """str.isspace() of one character: exact on ASCII, uninterpreted above"""
